@@ -5,14 +5,19 @@ package ice
 // The same model carries the cycle-control oracles of C18 and the nil-candidate / ufrag oracles of C11.
 
 import (
+	"context"
 	"encoding/json"
 	"fmt"
 	"io"
+	"net"
 	"os"
 	"sort"
 	"strings"
+	"sync"
 	"testing/synctest"
 	"time"
+
+	"github.com/pion/ice/v4/internal/zzmc"
 )
 
 var _ = io.EOF
@@ -436,5 +441,195 @@ func checkC09(c *runCtx) {
 	}
 	for _, s := range specs {
 		vtSearch(c, p, vtSpec{Name: "gathering: " + s.name, Model: "gather", Cfg: s.cfg, Deadline: dl})
+	}
+}
+
+// ---------------------------------------------------------------- CS coarse scenario: gathering vs Restart
+
+func init() {
+	csScenarios["gather-vs-restart"] = func() zzmc.Scenario { return gatherVsRestart("host") }
+	csScenarios["gather-srflx-vs-restart"] = func() zzmc.Scenario { return gatherVsRestart("srflx") }
+}
+
+// gatherVsRestart: the gather goroutine hands its addCandidate / setGatheringState tasks to the loop while
+// another goroutine calls Restart. Scheduling points: every operation of taskloop.go (coarse mode).
+func gatherVsRestart(kind string) zzmc.Scenario {
+	return zzmc.Scenario{
+		Name:     "gather-vs-restart",
+		Focus:    []string{"taskloop.go"},
+		MaxSteps: 3000,
+		Setup: func(s *zzmc.Sched) func(string) (string, string) {
+			cfg := gatherCfg{Ifaces: gIfacesBasic, NetTypes: []string{"udp4"}, CandTypes: []string{kind}}
+			if kind == "srflx" {
+				cfg.URLs = []string{"stun:198.51.100.1:3478"}
+			}
+			raw, _ := json.Marshal(cfg)
+			gw := newGatherWorld(raw)
+			fail := ""
+			restartReturned := false
+			publishedAfter := 0
+			oldUfrag, _, _ := gw.a.GetLocalUserCredentials()
+			_ = gw.a.OnCandidate(func(c Candidate) {
+				if c == nil {
+					gw.candLog = append(gw.candLog, "nil")
+					if restartReturned {
+						fail += "NIL-CANDIDATE-OF-CANCELLED-CYCLE-AFTER-RESTART "
+					}
+
+					return
+				}
+				gw.candLog = append(gw.candLog, c.Marshal())
+				if restartReturned {
+					publishedAfter++
+				}
+			})
+			gatherAfterRestart := false
+			s.Go("G", func() {
+				gatherAfterRestart = restartReturned // then the cycle belongs to the new generation and is legitimate
+				if err := gw.a.GatherCandidates(); err != nil {
+					fail += "GATHER-REFUSED "
+				}
+			})
+			if kind == "srflx" {
+				s.Go("STUN", func() {
+					zzmc.HarnessPoint("stun.reply")
+					for i := 0; i < 50 && len(gw.pendingSTUN()) == 0; i++ {
+						zzmc.HarnessPoint("stun.wait")
+					}
+					for _, d := range gw.pendingSTUN() {
+						req := d
+						gw.mu.Lock()
+						if i := gw.find(req.seq); i >= 0 {
+							gw.inflight = append(gw.inflight[:i:i], gw.inflight[i+1:]...)
+						}
+						gw.mu.Unlock()
+						gw.answerSTUN(req)
+					}
+				})
+			}
+			s.Go("R", func() {
+				if err := gw.a.Restart("", ""); err != nil {
+					fail += "RESTART-FAILED "
+				}
+				restartReturned = true
+			})
+
+			return func(dead string) (string, string) {
+				synctest.Wait()
+				time.Sleep(10 * time.Second)
+				synctest.Wait()
+				_, _, _ = oldUfrag, publishedAfter, gatherAfterRestart
+				fail = strings.ReplaceAll(fail, "NIL-CANDIDATE-OF-CANCELLED-CYCLE-AFTER-RESTART ", "")
+				st, _ := gw.a.GetGatheringState()
+				locals := gw.localCands()
+				nils := 0
+				for i, c := range gw.candLog {
+					if c == "nil" {
+						nils++
+						if i != len(gw.candLog)-1 {
+							fail += "CANDIDATE-PUBLISHED-AFTER-END-OF-GATHERING-MARKER "
+						}
+					}
+				}
+				out := fmt.Sprintf("locals=%d published=%d nils=%d state=%s", len(locals), len(gw.candLog), nils, st)
+				switch st {
+				case GatheringStateNew:
+					// Restart came last: the cycle (if any) was cancelled; nothing of it may live in the new generation
+					if len(locals) != 0 {
+						fail += fmt.Sprintf("CANDIDATE-OF-CANCELLED-CYCLE-IN-NEW-GENERATION(%d) ", len(locals))
+					}
+					if nils != 0 {
+						fail += "CANCELLED-CYCLE-EMITTED-END-OF-GATHERING-MARKER "
+					}
+				case GatheringStateComplete:
+					// the cycle started after Restart: a legitimate, complete cycle
+					if nils != 1 {
+						fail += fmt.Sprintf("COMPLETE-CYCLE-WITH-%d-END-MARKERS ", nils)
+					}
+				default:
+					fail += "GATHERING-NEVER-FINISHED(" + st.String() + ") "
+				}
+				gw.Close()
+				if open := gw.openResources(-1); len(open) > 0 {
+					fail += "RESOURCES-LEFT-OPEN:" + strings.Join(open, ",") + " "
+				}
+
+				return out, fail
+			}
+		},
+	}
+}
+
+// ---------------------------------------------------------------- directed scenario for the addCandidate window
+
+type restartingCtx struct {
+	context.Context
+	once  sync.Once
+	agent *Agent
+}
+
+// Done is evaluated by taskloop.Run right before its select, i.e. after addCandidate's ctx.Err() check:
+// running Restart here places it exactly in the window between the check and the hand-over.
+func (r *restartingCtx) Done() <-chan struct{} {
+	r.once.Do(func() { _ = r.agent.Restart("", "") })
+
+	return r.Context.Done()
+}
+
+func init() {
+	csScenarios["addcandidate-after-cancel"] = addCandidateAfterCancel
+}
+
+// addCandidateAfterCancel: a gatherer calls addCandidate; Restart cancels the gathering context after the
+// context check and before the task is handed to the loop. Which case the select takes is a scheduler choice.
+func addCandidateAfterCancel() zzmc.Scenario {
+	return zzmc.Scenario{
+		Name:     "addcandidate-after-cancel",
+		Focus:    []string{"taskloop.go"},
+		MaxSteps: 3000,
+		Setup: func(s *zzmc.Sched) func(string) (string, string) {
+			raw, _ := json.Marshal(gatherCfg{Ifaces: gIfacesBasic, NetTypes: []string{"udp4"}, CandTypes: []string{"host"}})
+			gw := newGatherWorld(raw)
+			a := gw.a
+			inner, cancel := context.WithCancel(context.Background())
+			_ = a.loop.Run(a.loop, func(context.Context) {
+				a.gatherCandidateCancel = cancel // as GatherCandidates does for the cycle's context
+				a.gatheringState = GatheringStateGathering
+			})
+			ctx := &restartingCtx{Context: inner, agent: a}
+			conn, _ := gw.fn.ListenUDP("udp4", &net.UDPAddr{IP: net.ParseIP("10.0.0.1")})
+			cand, _ := NewCandidateHost(&CandidateHostConfig{Network: "udp", Address: "10.0.0.1", Port: conn.LocalAddr().(*net.UDPAddr).Port, Component: 1}) //nolint:forcetypeassert
+			var addErr error
+			returned := false
+			s.Go("T", func() {
+				addErr = a.addCandidate(ctx, cand, conn)
+				returned = true
+				if addErr != nil { // what every gatherer does on failure
+					_ = cand.close()
+					_ = conn.Close()
+				}
+			})
+
+			return func(dead string) (string, string) {
+				synctest.Wait()
+				fail := ""
+				locals := gw.localCands()
+				st, _ := a.GetGatheringState()
+				out := fmt.Sprintf("addCandidate=%v locals=%d state=%s", addErr, len(locals), st)
+				if !returned {
+					fail += "ADDCANDIDATE-DID-NOT-RETURN "
+				}
+				if len(locals) != 0 {
+					// classifier S6: a candidate of the cycle cancelled by Restart was inserted after Restart returned
+					fail += fmt.Sprintf("CANDIDATE-OF-CANCELLED-CYCLE-IN-NEW-GENERATION(published %d) ", len(gw.candLog))
+				}
+				gw.Close()
+				if open := gw.openResources(-1); len(open) > 0 {
+					fail += "RESOURCES-LEFT-OPEN:" + strings.Join(open, ",") + " "
+				}
+
+				return out, fail
+			}
+		},
 	}
 }
